@@ -442,9 +442,9 @@ class Interp:
 
     def arm_finalizer(self, s, o):
         ev = self.cfg.get('finalizers', {}).get(str(s))
-        if ev is None or id(o) in self.fin_set:
+        if ev is None or getattr(o, '_fin_armed', False):
             return
-        self.fin_set.add(id(o))
+        o._fin_armed = True     # (not id(o): addresses are reused)
         f = weakref.finalize(o, self.fin_dispatch, s, ev)
         f.atexit = False
 
